@@ -270,7 +270,9 @@ func cmdExplain(args []string) int {
 }
 
 // cmdCheckAll (dev helper, not referenced by the manifest): one load, all properties, one line each:
-//   Cnn status=<pass|VIOLATION|UNDECIDED> keys=<violated keys;...>
+//
+//	Cnn status=<pass|VIOLATION|UNDECIDED> keys=<violated keys;...>
+//
 // No evidence is written.
 func cmdCheckAll() int {
 	p, err := loadProgram("linux", "amd64")
